@@ -800,6 +800,15 @@ func (e *Env) call(n *ECall) Val {
 		}
 		a0 := g.heapGet(base, "$alloc", "Int")
 		return Val{T: fmt.Sprintf("(>= %s %s)", ref, a0), S: "Bool", GT: types.Typ[types.Bool]}
+	case "allocated":
+		// allocated(x): the reference x was allocated before the state the expression is evaluated in
+		// (true of every reference stored in that state's heap; stated explicitly where a quantified invariant needs it)
+		v := e.tr(n.Args[0])
+		ref := v.T
+		if _, isSl := typeUnder(v.GT).(*types.Slice); isSl {
+			ref = sref(v.T)
+		}
+		return Val{T: fmt.Sprintf("(< %s %s)", ref, g.heapGet(e.state(), "$alloc", "Int")), S: "Bool", GT: types.Typ[types.Bool]}
 	case "implements":
 		// implements(x, I): the dynamic type of interface value x implements interface I
 		v := e.tr(n.Args[0])
@@ -876,6 +885,16 @@ func (e *Env) call(n *ECall) Val {
 		}
 		a, b, _ := e.unify(e.tr(n.Args[0]), e.tr(n.Args[1]))
 		return Val{T: fmt.Sprintf("(mod %s %s)", a.T, b.T), S: "Int", GT: a.GT}
+	case "visited":
+		// visited(k): key k has already been produced by the function's (single) range-over-map loop
+		if len(g.ranges) != 1 {
+			e.fail("visited(k) needs exactly one range-over-map loop in the function (found %d)", len(g.ranges))
+		}
+		for _, rs := range g.ranges {
+			kv := e.coerceTo(e.tr(n.Args[0]), rs.mt.Key())
+			h := g.heapGet(e.state(), rs.visited, g.famSort[rs.visited])
+			return Val{T: fmt.Sprintf("(select (select %s 0) %s)", h, kv.T), S: "Bool", GT: types.Typ[types.Bool]}
+		}
 	case "cur":
 		// cur(x): the current value of the local variable x (a loop variable that shadows a parameter of the same name)
 		id, ok := n.Args[0].(*EIdent)
@@ -907,6 +926,9 @@ func (e *Env) call(n *ECall) Val {
 				v := e.tr(n.Args[0])
 				if v.GT == nil && v.K != nil {
 					return e.constAs(v.K, tn.Type())
+				}
+				if v.S == "F64" {
+					return Val{T: g.floatToInt(v.T, tn.Type()), S: g.sortOf(tn.Type()), GT: tn.Type()}
 				}
 				return g.convertInt(v, v.GT, tn.Type())
 			}
